@@ -115,9 +115,15 @@ SdivTheorem == \A a, b \in EnvVals : LET t == <<"bin", "/", <<"num", a>>, <<"num
                  /\ (a = Zero => Eval(t, [n \in Names |-> Zero]) = Zero)
                  /\ (a # Zero /\ b # Zero => Eval(t, [n \in Names |-> Zero]) = RDiv(a, b))
 
+\* division is scale free: a quotient of two names does not change when both are multiplied by the same non-zero factor, however small
+\* (only a numerator that is exactly zero gives 0) - the law the harness re-checks on the real code at factors like 2^-40
+ScaleFactors == {<<1, 2>>, <<1, 1024>>, <<1, 1048576>>}
+DivScaleFree == \A a, b \in EnvVals, s \in ScaleFactors : \A t \in {<<"bin", "/", <<"name", "x">>, <<"name", "y">>>>, <<"call2", "sdiv", <<"name", "x">>, <<"name", "y">>>>} :
+                 Eval(t, [n \in Names |-> IF n = "x" THEN RMul(a, s) ELSE RMul(b, s)]) = Eval(t, [n \in Names |-> IF n = "x" THEN a ELSE b])
+
 Init == IF Part = "syntax" THEN SynInit ELSE EvInit
 Next == IF Part = "syntax" THEN Wrap \/ EmitSyn ELSE EvWrap \/ EmitEv
 Spec == Init /\ [][Next]_vars
 SynInv == Part = "syntax" => (ClassTotal /\ ClassMonotone)
-EvInv == Part = "eval" => SdivTheorem
+EvInv == Part = "eval" => (SdivTheorem /\ DivScaleFree)
 ====
